@@ -196,3 +196,34 @@ def loops_in_closure(ctx, func, pred):
             if pred(l):
                 out.append((g, l))
     return out
+
+
+def yields_each_of(ctx, func):
+    """text of the collection X when func hands out every element of X exactly once, unchanged:
+         for a in X: yield a   |   yield from X   |   return iter(X)   |   return X
+       None otherwise"""
+    body = func.body()
+    if len(body) != 1:
+        return None
+    st = body[0]
+    if isinstance(st, ast.Expr) and isinstance(st.value, ast.YieldFrom):
+        v = st.value.value
+        if isinstance(v, ast.Call) and isinstance(v.func, ast.Name) and v.func.id == 'iter' and len(v.args) == 1:
+            v = v.args[0]
+        return norm(v)
+    if isinstance(st, ast.Return) and st.value is not None:
+        v = st.value
+        if isinstance(v, ast.Call) and isinstance(v.func, ast.Name) and v.func.id == 'iter' and len(v.args) == 1:
+            v = v.args[0]
+        if isinstance(v, (ast.Attribute, ast.Name, ast.Subscript)):
+            return norm(v)
+        return None
+    if isinstance(st, ast.For) and isinstance(st.target, ast.Name) and not st.orelse:
+        flow = ctx.flow(func)
+        tv = st.target.id
+        mn, mx = loop_reaches_on_all_paths(flow, st, lambda n: n.stmt is not None and any(
+            isinstance(x, ast.Yield) and x.value is not None and norm(x.value) == tv for x in ast.walk(n.stmt)))
+        others = [x for x in ast.walk(st) if isinstance(x, (ast.Yield, ast.YieldFrom))]
+        if (mn, mx) == (1, 1) and len(others) == 1:
+            return norm(st.iter)
+    return None
